@@ -2289,11 +2289,13 @@ class Head(Expr):
                 for op in self.frame.operands
             ]
             return type(self.frame)(*operands)
-        if isinstance(self.frame, Head):
+        if isinstance(self.frame, Head) and not isinstance(self.frame, Blockwise):
+            # The inner head has a single partition; which input partitions
+            # are looked at is decided by the inner head
             return Head(
                 self.frame.frame,
                 min(self.n, self.frame.n),
-                self.operand("npartitions"),
+                self.frame.operand("npartitions"),
             )
 
     def _simplify_up(self, parent, dependents):
